@@ -30,23 +30,61 @@ def _walk_own(fnode):
     while todo:
         n = todo.pop()
         yield n
+        if isinstance(n, (ast.FunctionDef, ast.AsyncFunctionDef, ast.Lambda, ast.ClassDef)):
+            continue
         for c in ast.iter_child_nodes(n):
             if isinstance(c, (ast.FunctionDef, ast.AsyncFunctionDef, ast.Lambda, ast.ClassDef)):
                 continue
             todo.append(c)
 
 
+def _is_pymodel(filename):
+    return '/pymodels/' in filename.replace('\\', '/')
+
+
+def join_slist(interp, sep, xs):
+    """str.join over a symbolic-length sequence: interpreted from the Python model in pymodels/str_model.py
+    with the loop invariant attached to the call site, keyed 'join#k' (k-th such join of the function)."""
+    from .pymodels import str_model
+    target = None
+    for fr in reversed(interp.frame_stack):
+        if not _is_pymodel(fr.info.filename):
+            target = fr
+            break
+    if target is None:
+        return NotImplemented
+    k = target.join_counter
+    target.join_counter = k + 1
+    if (target.info.filename, target.info.qualname, 'join#%d' % k) not in interp.reg.loops_by_key:
+        return NotImplemented        # no call-site invariant: the caller falls back to the algebraic model
+    saved = target.model_site
+    target.model_site = 'join#%d' % k
+    try:
+        return interp.call(str_model.join, [sep, xs], {})
+    finally:
+        target.model_site = saved
+
+
 def find_spec(interp, frame, node):
     ordinal = loop_ordinal(frame.info, node)
-    if frame.info.filename.endswith('functools_model.py'):
+    if _is_pymodel(frame.info.filename):
         # library model: the invariant belongs to the call site (the nearest repository frame)
         for fr in reversed(interp.frame_stack):
-            if not fr.info.filename.endswith('functools_model.py'):
-                key = 'reduce#%d' % fr.reduce_site
-                spec = interp.reg.loops_by_key.get((fr.info.filename, fr.info.qualname, key))
+            if not _is_pymodel(fr.info.filename):
+                if fr.model_site is None and fr.reduce_site is None:
+                    return None, ordinal      # an ordinary loop of a Python-level model (no call-site spec)
+                key = fr.model_site if fr.model_site is not None else 'reduce#%d' % fr.reduce_site
+                spec = _pick(interp, interp.reg.loops_by_key.get((fr.info.filename, fr.info.qualname, key)))
                 return spec, key
         return None, ordinal
-    return interp.reg.loops_by_key.get((frame.info.filename, frame.info.qualname, ordinal)), ordinal
+    return _pick(interp, interp.reg.loops_by_key.get((frame.info.filename, frame.info.qualname, ordinal))), ordinal
+
+
+def _pick(interp, specs):
+    """several sidecar modules may annotate the same loop: the module under verification comes first"""
+    if specs is None or not hasattr(specs, 'pick'):
+        return specs
+    return specs.pick(getattr(interp.reg, 'current_module', None))
 
 
 _MUTATORS = {'append', 'extend', 'insert', 'pop', 'add', 'update', 'clear', 'remove', 'popleft', 'appendleft',
@@ -71,6 +109,17 @@ def assigned_names(body_nodes):
                 if isinstance(n.target, ast.Name):
                     names.add(n.target.id)
     return names, attrs, mutated
+
+
+def _oblige_conjuncts(st, name, goal, meta):
+    """one instance of the obligation per top-level conjunct of the invariant: smaller queries, and a refuted
+    conjunct gets a counter-model instead of a timeout on the whole conjunction"""
+    t = goal.t if isinstance(goal, SBool) else goal
+    if not isinstance(t, bool) and z3.is_and(t):
+        for c in t.children():
+            st.oblige(name, c, meta)
+    else:
+        st.oblige(name, goal, meta)
 
 
 def _call_pred(interp, pred, env, assumed=False, proving=None):
@@ -109,13 +158,13 @@ def _param_names(pred):
 
 
 def _env_of(interp, frame, extra):
-    env = {}
+    env = {'ghost': interp.st.ghost, 'trace': interp.st.trace}     # ghost state / events (unless shadowed by a local)
     if interp.collect is not None:
         env['yielded'] = interp.collect[1]
-    if frame.info.filename.endswith('functools_model.py'):
+    if _is_pymodel(frame.info.filename):
         # library model: the call site's names are visible to the invariant
         for fr in reversed(interp.frame_stack):
-            if not fr.info.filename.endswith('functools_model.py'):
+            if not _is_pymodel(fr.info.filename):
                 for d in fr.enclosing:
                     env.update(d)
                 env.update(fr.locals)
@@ -124,25 +173,35 @@ def _env_of(interp, frame, extra):
         env.update(d)
     env.update(frame.locals)
     env.update(interp.reg.ghost_env)
-    # `trace`: the ghost events of this path (on the arbitrary-iteration path: those before the loop and those
-    # of this one iteration, which is how an invariant can check the calls an iteration makes); `ghost`
+    env['ghost'] = interp.st.ghost       # ghost (monitor) state of models and contracts
+    # indices of the (enclosing) loops with invariants: `_i_<ordinal>`
+    for o, t in getattr(frame, 'loop_index', {}).items():
+        env['_i_%s' % o] = t
     env.setdefault('trace', interp.st.trace)
-    env.setdefault('ghost', interp.st.ghost)
     env.update(extra)
     return env
 
 
 def _havoc(interp, frame, spec, modified_names, tag):
+    """returns the set of (id(object), attribute) pairs of the object fields declared in `modifies`"""
+    declared_fields = set()
     from .api import MListOf as _MListOf
     for name in modified_names:
         ty = spec.modifies.get(name)
         if isinstance(ty, _MListOf):
             continue
         if ty is None:
-            raise Unsupported('loop %s#%s assigns %r which is not declared in modifies'
-                              % (spec.qname, spec.ordinal, name))
+            # a name the loop specification does not know (a temporary introduced by a later edit of the
+            # function): treated as a loop-local temporary, i.e. UNBOUND at the loop head and after the loop.
+            # Conservative: a read of a value carried over from another iteration or from before the loop
+            # fails (UnboundLocalError on that path) instead of seeing a stale value.
+            ty = 'local'
+        if ty == 'in-place':
+            continue
         if ty == 'local':      # a loop-local temporary: dead at loop head
             frame.locals.pop(name, None)
+            continue
+        if ty == 'iter':
             continue
         frame.locals[name] = ty.make(interp, '%s@%s' % (name, tag))
     from .api import MListOf
@@ -174,6 +233,29 @@ def _havoc(interp, frame, spec, modified_names, tag):
     for name, ty in spec.modifies.items():
         if isinstance(ty, MListOf) and '.' not in name and not name.startswith('ghost:'):
             continue
+        if hasattr(ty, 'havoc_in_place'):
+            # mutable (ghost) state of an object reached through a local: havocked in place, identity kept
+            obj = None
+            for k, part in enumerate(name.split('.')):
+                obj = frame.locals.get(part) if k == 0 else interp.getattr(obj, interp.mangle(part, frame.info.class_name))
+            if obj is None:
+                raise Unsupported('modifies entry %r: unknown object' % name)
+            ty.havoc_in_place(interp, obj, '%s@%s' % (name, tag))
+            declared_fields.add((id(obj), '<contents>'))     # (containers report changes of their contents)
+            if getattr(ty, 'whole', False):
+                declared_fields.add((id(obj), '*'))
+            continue
+        if ty == 'iter':
+            # an iterator over a symbolic sequence that the body advances (nested loops over it, calls that
+            # consume it): its position is arbitrary, but never before the position at loop entry
+            cur = frame.locals.get(name)
+            if not isinstance(cur, models.SIter):
+                raise Unsupported('modifies %r: not an iterator over a symbolic sequence' % name)
+            p0 = to_z3(cur.pos) if not isinstance(cur.pos, int) else z3.IntVal(cur.pos)
+            p1 = interp.st.fresh_int('%s.pos@%s' % (name, tag))
+            interp.st.assume(z3.And(p1 >= p0, z3.Or(p1 <= cur.xs.length, p1 == p0)))
+            cur.pos = wrap(p1)
+            continue
         if name == 'yielded':
             if interp.collect is None:
                 raise Unsupported('modifies yielded outside a generator under verification')
@@ -182,25 +264,24 @@ def _havoc(interp, frame, spec, modified_names, tag):
             interp.st.assume(n >= 0)
             ys.length = n
             continue
-        from .api import HavocBy, PDictOf
-        if isinstance(ty, PDictOf):
-            parts = name.split('.')
-            obj = _lookup_name(frame, parts[0])
-            for a in parts[1:]:
-                obj = interp.getattr(obj, a)
-            obj.havoc(interp, tag)
-            continue
-        if isinstance(ty, HavocBy):
-            # an object changed in place by the body, with its own way of becoming arbitrary
-            parts = name.split('.')
-            obj = _lookup_name(frame, parts[0])
-            for a in parts[1:]:
-                obj = interp.getattr(obj, a)
-            ty.fn(interp, obj)
-            continue
         if name.startswith('ghost:'):
             # ghost state (interp.st.ghost) changed by models/contracts called in the body
             interp.st.ghost[name[6:]] = ty.make(interp, '%s@%s' % (name, tag))
+            continue
+        if ty == 'in-place':
+            # a mutable object (symbolic map, or instance holding one) changed by calls in the body:
+            # its contents are forgotten, its identity is kept
+            obj = frame.locals.get(name) if '.' not in name else None
+            if obj is None and '.' in name:
+                base, _, attr = name.partition('.')
+                obj = frame.locals.get(base)
+                for a in attr.split('.'):
+                    obj = interp.getattr(obj, a) if obj is not None else None
+            if obj is None or not models.havoc_mutable(interp, obj, '%s@%s' % (name, tag)):
+                raise Unsupported('modifies entry %r (in-place): nothing to havoc' % name)
+            if isinstance(obj, (SOpt, SChoice)):
+                obj = interp.resolve(obj)
+            declared_fields.add((id(obj), '*'))      # every field of an object declared in-place may be stored to
             continue
         if name == 'yielded':
             continue
@@ -210,10 +291,24 @@ def _havoc(interp, frame, spec, modified_names, tag):
                 parts = name.split('.')
                 obj = frame.locals.get(parts[0])
                 if obj is None:
+                    for d in reversed(frame.enclosing):      # a variable of an enclosing function
+                        if parts[0] in d:
+                            obj = d[parts[0]]
+                            break
+                if obj is None and _is_pymodel(frame.info.filename):
+                    # library model: the names of the call site
+                    for fr in reversed(interp.frame_stack):
+                        if not _is_pymodel(fr.info.filename):
+                            obj = fr.locals.get(parts[0])
+                            break
+                if obj is None:
                     raise Unsupported('modifies entry %r: unknown base' % name)
                 for a in parts[1:-1]:
                     obj = interp.getattr(obj, a)
                 attr = parts[-1]
+                if isinstance(obj, (SOpt, SChoice)):
+                    obj = interp.resolve(obj)
+                declared_fields.add((id(obj), attr))
                 if isinstance(ty, MListOf):
                     cur = interp.getattr(obj, attr)
                     if isinstance(cur, list):
@@ -228,109 +323,29 @@ def _havoc(interp, frame, spec, modified_names, tag):
                 interp.setattr(obj, attr, ty.make(interp, '%s@%s' % (name, tag)))
             else:
                 frame.locals[name] = ty.make(interp, '%s@%s' % (name, tag))
+    return declared_fields
 
 
-class LoopGuard:
-    """Dynamic check of the heap part of a loop frame.  While the arbitrary iteration of a loop with an
-    invariant is executed, every store to an attribute of an object that existed at the loop head, and every
-    mutation of such a list / dict, must be covered by the loop's `modifies` (which is what was havocked at
-    the loop head): otherwise the facts assumed after the loop about that object would be those from before
-    it.  Stores are reported by Interp.note_heap_write (attribute stores, native container mutations, contract
-    frames, environment models).  Objects created during the iteration are free."""
-
-    def __init__(self, interp, frame, spec, label):
-        self.label = label
-        self.pre = set()
-        self.keep = []
-        self.allowed = set()
-        roots = list(frame.locals.values())
-        for d in frame.enclosing:
-            roots.extend(d.values())
-        roots.extend(interp.reg.ghost_env.values())
-        for r in roots:
-            self._reach(r, 0)
-        from .api import MListOf, HavocBy
-        for name, ty in spec.modifies.items():
-            if name.startswith('ghost:') or name == 'yielded' or ty == 'local':
-                continue
-            path = name[1:] if name.startswith('@') else name
-            parts = path.split('.')
-            try:
-                obj = _lookup_name(frame, parts[0])
-                for a in parts[1:-1]:
-                    obj = interp.getattr(obj, a)
-            except Exception:
-                continue
-            if len(parts) > 1:
-                self.allowed.add((id(obj), parts[-1]))
-                self.keep.append(obj)
-                try:
-                    cur = interp.getattr(obj, parts[-1])
-                except Exception:
-                    cur = None
-            else:
-                cur = obj
-            from .api import PDictOf
-            from .pdict import PDict
-            if isinstance(cur, PDict):
-                for v in cur.values.values():
-                    if v is not None:
-                        self.allowed.add((id(v), '*'))
-                        self.keep.append(v)
-            if name.startswith('@') or isinstance(ty, (MListOf, HavocBy, PDictOf)) or isinstance(cur, (list, dict)):
-                self.allowed.add((id(cur), '*'))
-                self.keep.append(cur)
-
-    def _reach(self, v, depth):
-        if depth > 10 or len(self.pre) > 20000:
-            return
-        if isinstance(v, (int, str, bool, float, bytes, type(None), type)) or isinstance(v, Sym) and not isinstance(v, SList):
-            return
-        import types as _types
-        if isinstance(v, (_types.FunctionType, _types.ModuleType, _types.BuiltinFunctionType, _types.MethodType)):
-            return
-        i = id(v)
-        if i in self.pre:
-            return
-        self.pre.add(i)
-        self.keep.append(v)
-        if isinstance(v, (list, tuple, set, frozenset)):
-            for x in v:
-                self._reach(x, depth + 1)
-        elif isinstance(v, dict):
-            for x in v.values():
-                self._reach(x, depth + 1)
-        else:
-            d = getattr(v, '__dict__', None)
-            if isinstance(d, dict):
-                for k, x in d.items():
-                    if not (isinstance(k, str) and k.startswith('_pv_')):
-                        self._reach(x, depth + 1)
-                pa = d.get('_pv_attrs')
-                if isinstance(pa, dict):
-                    for x in pa.values():
-                        self._reach(x, depth + 1)
-
-    def check(self, interp, obj, attr):
-        i = id(obj)
-        if i not in self.pre:
-            return
-        if (i, '*') in self.allowed or (attr is not None and (i, attr) in self.allowed):
-            return
-        if attr is None and any(a == i for (a, _) in self.allowed):
-            return
-        raise Unsupported('%s: the body writes %s of a pre-existing %s object, which `modifies` does not declare'
-                          % (self.label, ('attribute %r' % attr) if attr else 'the contents',
-                             type(obj).__name__))
+def _iter_positions(frame, exempt):
+    """positions of the iterators over symbolic sequences that the frame can see"""
+    out = {}
+    for d in list(frame.enclosing) + [frame.locals]:
+        for name, v in d.items():
+            if isinstance(v, models.SIter) and v is not exempt:
+                out[id(v)] = (name, v, v.pos)
+    return out
 
 
-def _lookup_name(frame, name):
-    if name in frame.locals:
-        return frame.locals[name]
-    for d in reversed(frame.enclosing):
-        if name in d:
-            return d[name]
-    raise KeyError(name)
+def _check_iterators_unchanged(spec, before, frame, exempt):
+    """an iterator that the loop body advanced must be declared in modifies (as 'iter'): otherwise the
+    arbitrary iteration would start from the position at loop entry only"""
+    for key, (name, it, pos0) in before.items():
+        same = it.pos is pos0 or (not isinstance(it.pos, int) and not isinstance(pos0, int)
+                                  and to_z3(it.pos).eq(to_z3(pos0))) \
+            or (isinstance(it.pos, int) and isinstance(pos0, int) and it.pos == pos0)
+        if not same and spec.modifies.get(name) != 'iter':
+            raise Unsupported('loop %s#%s advances the iterator %r which is not declared in modifies '
+                              '(%s=\'iter\')' % (spec.qname, spec.ordinal, name, name))
 
 
 def _check_frame(spec, node):
@@ -360,9 +375,11 @@ def exec_while(interp, node, frame):
     # (1) invariant on entry
     inv0 = interp.truth(_call_pred(interp, spec.invariant, _env_of(interp, frame, {}),
                                    proving=(label + ' invariant[entry]', {'kind': 'loop-entry'})))
-    st.oblige(label + ' invariant[entry]', inv0, {'kind': 'loop-entry'})
+    _oblige_conjuncts(st, label + ' invariant[entry]', inv0, {'kind': 'loop-entry'})
     which = st.choose(2)
-    _havoc(interp, frame, spec, modified, 'L%s' % ordinal)
+    declared_fields = _havoc(interp, frame, spec, modified, 'L%s' % ordinal)
+    from . import strings as _strings
+    _strings.forget_dead_pieces(interp)
     inv = interp.truth(_call_pred(interp, spec.invariant, _env_of(interp, frame, {}), assumed=True))
     st.assume(inv)
     guard = interp.eval(node.test, frame)
@@ -373,14 +390,16 @@ def exec_while(interp, node, frame):
         dec0 = None
         if spec.decreases is not None:
             dec0 = _call_pred(interp, spec.decreases, _env_of(interp, frame, {}))
+        its = _iter_positions(frame, None)
         pre_val = None
         if spec.pre is not None:
             pre_val = _call_pred(interp, spec.pre, _env_of(interp, frame, {}))
-        interp.loop_guards.append(LoopGuard(interp, frame, spec, label))
+        interp.loop_frame_stack.append({'declared': declared_fields, 'born': set(), 'loop': label})
         try:
             r = interp.exec_block(node.body, frame)
         finally:
-            interp.loop_guards.pop()
+            interp.loop_frame_stack.pop()
+        _check_iterators_unchanged(spec, its, frame, None)
         if spec.step is not None and (r is None or r[0] == 'continue'):
             ok = interp.truth(_call_pred(interp, spec.step, _env_of(interp, frame, {'pre': pre_val}),
                                          proving=(label + ' step', {'kind': 'loop-step'})))
@@ -391,7 +410,7 @@ def exec_while(interp, node, frame):
             return r
         inv2 = interp.truth(_call_pred(interp, spec.invariant, _env_of(interp, frame, {}),
                                        proving=(label + ' invariant[preserved]', {'kind': 'loop-preserve'})))
-        st.oblige(label + ' invariant[preserved]', inv2, {'kind': 'loop-preserve'})
+        _oblige_conjuncts(st, label + ' invariant[preserved]', inv2, {'kind': 'loop-preserve'})
         if dec0 is not None:
             dec1 = _call_pred(interp, spec.decreases, _env_of(interp, frame, {}))
             st.oblige(label + ' variant[decreases]',
@@ -434,6 +453,7 @@ def exec_for(interp, node, frame):
     src = interp.eval(node.iter, frame)
     if isinstance(src, (SOpt, SChoice)):
         src = interp.resolve(src)
+    src = models.as_siter(interp, src)
     if isinstance(src, (SList, models.SIter, models.SEnumerate)):
         return _for_symbolic(interp, node, frame, src)
     spec, ordinal = find_spec(interp, frame, node)
@@ -445,6 +465,13 @@ def exec_for(interp, node, frame):
             x = next(it)
         except StopIteration:
             break
+        except (Unsupported, PathAbort):
+            raise
+        except Exception as e:
+            from .interp import PyRaise
+            if isinstance(e, PyRaise) or type(e).__module__.startswith('pyvc'):
+                raise
+            raise PyRaise(e)         # a native iterator (e.g. Path.iterdir of a concrete path) raised
         interp.assign(node.target, x, frame)
         r = interp.exec_block(node.body, frame)
         if r is not None:
@@ -466,6 +493,9 @@ def _for_symbolic(interp, node, frame, src):
                           % (frame.info.qualname, node.lineno))
     fname = interp.current_function_name()
     label = '%s : loop#%s' % (fname, ordinal)
+    if '.<locals>.' in frame.info.qualname and not _is_pymodel(frame.info.filename):
+        # a loop of a nested function: ordinals count per function
+        label = '%s : %s loop#%s' % (fname, frame.info.qualname.rpartition('.<locals>.')[2], ordinal)
     modified, _targets = _check_frame(spec, node)
     enum_start = None
     it_cell = None
@@ -481,51 +511,73 @@ def _for_symbolic(interp, node, frame, src):
         start = z3.IntVal(0)
     n = xs.length
 
+    entry = _call_pred(interp, spec.entry, _env_of(interp, frame, {})) if getattr(spec, 'entry', None) else None
+
     def env(i):
-        return _env_of(interp, frame, {'_i': wrap(i), '_xs': xs, '_n': wrap(n), '_start': wrap(start)})
+        e = {'_i': wrap(i), '_xs': xs, '_n': wrap(n), '_start': wrap(start), '_entry': entry}
+        if interp.loop_index_stack:
+            e['_o'] = wrap(interp.loop_index_stack[-1])      # index of the enclosing symbolic loop
+        return _env_of(interp, frame, e)
 
     inv0 = interp.truth(_call_pred(interp, spec.invariant, env(start),
                                    proving=(label + ' invariant[entry]', {'kind': 'loop-entry'})))
-    st.oblige(label + ' invariant[entry]', inv0, {'kind': 'loop-entry'})
+    _oblige_conjuncts(st, label + ' invariant[entry]', inv0, {'kind': 'loop-entry'})
     which = st.choose(2)
     tag = 'L%s' % ordinal
-    _havoc(interp, frame, spec, modified, tag)
+    declared_fields = _havoc(interp, frame, spec, modified, tag)
+    from . import strings as _strings
+    _strings.forget_dead_pieces(interp)
     if which == 0:
         i = st.fresh_int('_i@' + tag)
         st.assume(z3.And(i >= start, i < n))
+        if isinstance(ordinal, int):
+            frame.locals['_i%d' % ordinal] = wrap(i)      # visible to invariants of inner loops
         st.assume(interp.truth(_call_pred(interp, spec.invariant, env(i), assumed=True)))
+        frame.loop_index[ordinal] = wrap(i)
         x = models.slist_elem(interp, xs, i)
         if enum_start is not None:
             x = (interp.binop(ast.Add, enum_start, wrap(i - start)), x)
         if it_cell is not None:
             it_cell.pos = wrap(i + 1)
         interp.assign(node.target, x, frame)
+        its = _iter_positions(frame, it_cell)
         pre_val = None
         if spec.pre is not None:
             pre_val = _call_pred(interp, spec.pre, env(i))
         interp.loop_index_stack.append(i)
-        interp.loop_guards.append(LoopGuard(interp, frame, spec, label))
+        interp.loop_frame_stack.append({'declared': declared_fields, 'born': set(), 'loop': label})
         try:
             r = interp.exec_block(node.body, frame)
         finally:
             interp.loop_index_stack.pop()
-            interp.loop_guards.pop()
+            interp.loop_frame_stack.pop()
+        _check_iterators_unchanged(spec, its, frame, it_cell)
         if spec.step is not None and (r is None or r[0] == 'continue'):
             e2 = env(i + 1)
             e2['pre'] = pre_val
             ok = interp.truth(_call_pred(interp, spec.step, e2, proving=(label + ' step', {'kind': 'loop-step'})))
             st.oblige(label + ' step', ok, {'kind': 'loop-step'})
         if r is not None and r[0] != 'continue':
+            if it_cell is not None and it_cell.eager:
+                raise Unsupported('early exit from a loop over a generator that is used through its contract '
+                                  '(its items and effects are taken at the call: it must be consumed completely)')
             if r[0] == 'break':
                 return None
             return r
-        inv2 = interp.truth(_call_pred(interp, spec.invariant, env(i + 1),
+        nxt = i + 1
+        if it_cell is not None:
+            # the body may itself have consumed more of the iterator (e.g. `f.writelines(lines)`)
+            nxt = to_z3(it_cell.pos) if not isinstance(it_cell.pos, int) else z3.IntVal(it_cell.pos)
+        inv2 = interp.truth(_call_pred(interp, spec.invariant, env(nxt),
                                        proving=(label + ' invariant[preserved]', {'kind': 'loop-preserve'})))
-        st.oblige(label + ' invariant[preserved]', inv2, {'kind': 'loop-preserve'})
+        _oblige_conjuncts(st, label + ' invariant[preserved]', inv2, {'kind': 'loop-preserve'})
         raise PathAbort()
     # exit: all elements consumed
+    if isinstance(ordinal, int):
+        frame.locals['_i%d' % ordinal] = wrap(n)
     st.assume(start <= n)
     st.assume(interp.truth(_call_pred(interp, spec.invariant, env(z3.If(start <= n, n, start)), assumed=True)))
+    frame.loop_index[ordinal] = wrap(n)
     if it_cell is not None:
         it_cell.pos = wrap(n)
     if node.orelse:
